@@ -1,0 +1,58 @@
+//go:build verif
+
+// Contracts for the verif framework (/verif). Comment-only: this file
+// declares nothing and is compiled only with -tags=verif.
+
+package imports
+
+//@ property C19: matchTag, matchTags, MatchFile
+
+// ---- vocabulary of property C19 (Go's build-constraint rules) ----
+//
+// A tag name is well formed when all its runes are letters, digits, '_' or '.'.
+//@ pure func okRune(c int) bool = isLetterR(c) || isDigitR(c) || c == '_' || c == '.'
+//@ opaque func tagCharsFrom(name string, P int) bool = P >= hi(name) || (okRune(runeAt(name, P)) && tagCharsFrom(name, P + runeW(name, P)))
+//@ pure func tagChars(name string) bool = tagCharsFrom(name, lo(name))
+//
+// tags selects an OS/arch token; android also selects linux.
+//@ pure func selects(tags map[string]bool, tok string) bool = tags[tok] || (tok == "linux" && tags["android"])
+//
+// A single tag: malformed names are false; with tags["*"] every tag except "ignore"
+// (and the empty name) is both true and false; otherwise presence must equal want.
+//@ pure func tagOK(name string, tags map[string]bool, want bool) bool = tagChars(name) && ((tags["*"] && name != "" && name != "ignore") || (selects(tags, name) == want))
+//
+// A term: "!!x" is malformed, "!x" negates (and needs a name), "x" is plain.
+//@ pure func termOK(t string, tags map[string]bool) bool = !(len(t) >= 2 && t[0] == '!' && t[1] == '!') && ((len(t) >= 1 && t[0] == '!') ? (len(t) > 1 && tagOK(t[1:], tags, false)) : tagOK(t, tags, true))
+//
+// An option: comma-separated terms, all of which must hold; the empty option is false.
+//@ opaque func optOK(name string, tags map[string]bool) bool = name != "" && (firstIdx(name, ',') >= 0 ? (optOK(name[:firstIdx(name, ',')], tags) && optOK(name[firstIdx(name, ',')+1:], tags)) : termOK(name, tags))
+
+//@ func matchTag
+//@   pure
+//@   requires tags != nil
+//@   loop 1: invariant 0 <= rangepos && rangepos <= len(name)
+//@   loop 1: invariant tagChars(name) == tagCharsFrom(name, lo(name) + rangepos)
+//@   loop 1: decreases len(name) - rangepos
+//@   ensures result == tagOK(name, tags, want)
+
+//@ func matchTags
+//@   pure
+//@   requires tags != nil
+//@   ensures result == optOK(name, tags)
+
+// ---- MatchFile (property C19): a name is rejected exactly when its last one or two
+// "_"-separated segments (ignoring a final "_test" and the extension) are known OS /
+// architecture tokens that tags does not select, android also selecting linux. ----
+//
+//@ pure func stemOf(name string) string = firstIdx(name, '.') >= 0 ? name[:firstIdx(name, '.')] : name
+//@ pure func tailOf(stem string) string = stem[firstIdx(stem, '_'):]
+//@ pure func nsegs(t string) int = (splitLen(t, "_") > 0 && splitAt(t, "_", splitLen(t, "_") - 1) == "test") ? splitLen(t, "_") - 1 : splitLen(t, "_")
+//@ pure func seg(t string, j int) string = splitAt(t, "_", j)
+//@ pure func fileOK(t string, tags map[string]bool, kos map[string]bool, karch map[string]bool) bool = (nsegs(t) >= 2 && kos[seg(t, nsegs(t)-2)] && karch[seg(t, nsegs(t)-1)]) ? (selects(tags, seg(t, nsegs(t)-2)) && tags[seg(t, nsegs(t)-1)]) : ((nsegs(t) >= 1 && kos[seg(t, nsegs(t)-1)]) ? selects(tags, seg(t, nsegs(t)-1)) : ((nsegs(t) >= 1 && karch[seg(t, nsegs(t)-1)]) ? tags[seg(t, nsegs(t)-1)] : true))
+
+//@ func MatchFile
+//@   pure
+//@   requires tags != nil
+//@   ensures tags["*"] ==> result
+//@   ensures !tags["*"] && firstIdx(stemOf(name), '_') < 0 ==> result
+//@   ensures !tags["*"] && firstIdx(stemOf(name), '_') >= 0 ==> result == fileOK(tailOf(stemOf(name)), tags, KnownOS, KnownArch)
